@@ -114,7 +114,16 @@ MisRels == {"root_mis_pss_p1",    \* label RSASSA-PSS(SHA-256), signature PKCS#1
             "root_mis_hash",      \* label sha256WithRSAEncryption, signature PKCS#1 v1.5 over the SHA-384 digest
             "root_mis_ecdsa"}     \* label ecdsa-with-SHA256, signature PKCS#1 v1.5 SHA-256 by the RSA root
 CrossRels == GoodRels \cup MisRels \cup {"otherca"}
-ChainOK(rel, time) == rel \in GoodRels /\ time = "valid"
+\* TIME.  A call is made in epoch now = 0 (the epoch in which a long-lived Attestor was constructed) or, after the clock
+\* has moved on, in epoch 1.  A validity class is the set of epochs in which the device certificate is valid (as V0 / V1
+\* of ShimAgent): "valid" in both, "lapsing" only in epoch 0 (NotAfter between construction and the later call),
+\* "becoming" only in epoch 1 (NotBefore between them), "expired" / "notyet" in neither.  The chain must hold at the time
+\* OF THE CALL.
+EpochTimes == {"lapsing", "becoming"}
+V0 == {"valid", "lapsing"}
+V1 == {"valid", "becoming"}
+ValidAt(time, now) == IF now = 0 THEN time \in V0 ELSE time \in V1
+ChainOK(rel, time, now) == rel \in GoodRels /\ ValidAt(time, now)
 Labels == 0..16       \* crypto/x509.SignatureAlgorithm: 0 unknown, 1 MD2-RSA, 2 MD5-RSA, 3..6 SHA1/256/384/512-RSA,
                       \* 7,8 DSA-SHA1/256, 9..12 ECDSA-SHA1/256/384/512, 13..15 RSA-PSS, 16 Ed25519
 RSALabels == 3..6
@@ -143,10 +152,10 @@ SigForms == {"canon", "lead0", "plusN", "honest", "junk"}
    \* (still equals the EM when raised to e: permitted, not demanded); honest / junk: signatures under non-RSA keys
 
 \* the acceptance predicate of the statement (labels SHA-x with RSA) ...
-Accept(c) == /\ ChainOK(c.rel, c.time) /\ c.kt = "rsa" /\ c.alg \in RSALabels
+Accept(c) == /\ ChainOK(c.rel, c.time, c.now) /\ c.kt = "rsa" /\ c.alg \in RSALabels
              /\ c.sch = "pkcs1" /\ ValidEM(c.em, LabelHash(c.alg))     \* the signature verifies under the label's scheme
 \* ... what may be accepted at most (open labels included) ...
-Permitted(c) == /\ ChainOK(c.rel, c.time) /\ c.kt = "rsa" /\ c.alg \in (RSALabels \cup OpenLabels)
+Permitted(c) == /\ ChainOK(c.rel, c.time, c.now) /\ c.kt = "rsa" /\ c.alg \in (RSALabels \cup OpenLabels)
                 /\ c.sch = "pkcs1" /\ ValidEM(c.em, LabelHash(c.alg))
 \* ... and what must be accepted
 Required(c) == Accept(c) /\ c.sf = "canon"
@@ -157,7 +166,7 @@ Design06(c) == [acc |-> Permitted(c) /\ ~(c.via = "parsed" /\ c.lab \in {"dsa-sh
 Strict06(c, r) == r.acc = Design06(c).acc /\ r.pan = FALSE
 
 \* every clause of the statement follows from acceptance
-Clauses(c) == /\ c.rel \in GoodRels /\ c.time = "valid" /\ c.rel \notin TwinRels /\ c.rel \notin MisRels
+Clauses(c) == /\ c.rel \in GoodRels /\ ValidAt(c.time, c.now) /\ c.time \notin {"expired", "notyet"} /\ c.rel \notin TwinRels /\ c.rel \notin MisRels
               /\ c.sch = "pkcs1"
               /\ (c.via = "parsed" => (c.lab \notin {"pss-sha256", "pss-sha384", "pss-sha512", "pss-noparams", "pss-badsalt", "md2-rsa", "md5-rsa", "ed25519", "unknown"}
                                       /\ LabelDenotes(c.lab) = c.alg))
@@ -180,7 +189,8 @@ Case06(kt, alg, rel, time, sf, h0, n0, mut, em) ==
      mut |-> mut, em |-> em,
      via |-> "value",           \* "value": an x509.Certificate value with the label set directly; "parsed": DER through the lenient parser
      lab |-> "",                \* the encoded label (via = "parsed"); alg is what it denotes
-     sch |-> IF kt = "rsa" THEN "pkcs1" ELSE "other"]
+     sch |-> IF kt = "rsa" THEN "pkcs1" ELSE "other",
+     now |-> 0]                 \* the epoch of the call
 RandomEM == EMRec("random", "00", "00", "00", "00", "00", "00", <<>>, -1, "none", 0, "00")
 \* label x scheme cross product: a slot certificate LABELLED lab whose signature value was made by the RSA device key
 \* under scheme sch with hash hs, presented with a device certificate of chain class rel, everything parsed from DER
@@ -195,6 +205,8 @@ Init06 == /\ \/ \E h \in AllH, n \in BOOLEAN, a \in Labels, ch \in Chains :
              \/ \E lab \in LabelEncs, sch \in Schemes, hs \in Hashes \cup {"md5"}, rel \in CrossRels :
                    /\ (sch = "pss" => hs \in {"sha256", "sha384", "sha512"}) /\ (sch = "junk" => hs = "sha256")
                    /\ c = Cross06(lab, sch, hs, rel)
+             \/ \E tm \in EpochTimes, a \in Labels, h \in Hashes, rel \in {"root", "otherca"} :
+                   c = Case06("rsa", a, rel, tm, "canon", h, TRUE, "none", GoodEM(h, TRUE))
           /\ r = Design06(c)
           /\ hist = IF c.rel \in TwinRels THEN "used" ELSE "fresh"   \* a twin presupposes the genuine one attested before
 \* in which contexts the mutation operators are applied: everywhere (thorough tier) or where at most one of chain
@@ -202,7 +214,7 @@ Init06 == /\ \/ \E h \in AllH, n \in BOOLEAN, a \in Labels, ch \in Chains :
 CONSTANT MutCtx(_)
 MutCtxAll(x) == TRUE
 MutCtxQuick(x) == x.rel = "root" \/ x.time = "valid"
-Mutable == c.mut = "none" /\ c.kt = "rsa" /\ c.via = "value" /\ c.h0 \in Hashes /\ hist = "fresh" /\ MutCtx(c)
+Mutable == c.mut = "none" /\ c.kt = "rsa" /\ c.via = "value" /\ c.h0 \in Hashes /\ hist = "fresh" /\ c.time \notin EpochTimes /\ MutCtx(c)
 Put(name, em) == /\ c' = [c EXCEPT !.mut = name, !.em = em]
                  /\ r' = Design06(c')
                  /\ UNCHANGED hist
@@ -227,13 +239,17 @@ AcceptingCtx(x) == x.rel = "root" /\ x.time = "valid" /\ x.alg \in RSALabels /\ 
 AfterAccept06 == /\ c.via = "value" /\ c.kt = "rsa" /\ hist = "fresh"
                  /\ (c.mut = "none" \/ AcceptingCtx(c))
                  /\ hist' = "after_accept" /\ UNCHANGED <<c, r>>
+\* the clock moves on: the same certificates presented in epoch 1 (to an Attestor constructed in epoch 0 when
+\* hist = "used", to one constructed for the call when hist = "fresh"); the verdict follows the clock
+Tick06 == /\ c.now = 0 /\ c.time \in EpochTimes /\ c.mut = "none"
+          /\ c' = [c EXCEPT !.now = 1] /\ r' = Design06(c') /\ UNCHANGED hist
 Next06 == \/ \E v \in ByteClass : MutLead(v) \/ MutBT(v) \/ MutPSf(v) \/ MutPSm(v) \/ MutPSl(v) \/ MutSep(v)
           \/ \E j \in 1..19, v \in ByteClass : MutPfx(j, v)
           \/ \E j \in 1..64, v \in ByteClass : MutDg(j, v)
           \/ \E s \in Shapes : Reshape(s)
           \/ \E h \in AllH, n \in BOOLEAN : PfxOther(h, n)
           \/ \E h \in AllH : DgOther(h)
-          \/ Use06 \/ AfterAccept06
+          \/ Use06 \/ AfterAccept06 \/ Tick06
 Spec06 == Init06 /\ [][Next06]_vars
 
 \* the property and the sanity theorems, model-checked on the full product
@@ -244,10 +260,14 @@ Inv06_Base == (c.mut = "none" /\ c.kt = "rsa" /\ c.sch = "pkcs1") => (ValidFor(c
 \* every single mutation that changes the encoded message makes it invalid for every hash
 P_MutInvalid == [][(c'.em # c.em) => \A h \in AllH, n \in BOOLEAN : ~ValidFor(c'.em, h, n)]_vars
 \* and, conversely, a mutation operator that writes the octet already there changes nothing
-P_NoopSame == [][(c'.em = c.em) => r'.acc = r.acc]_vars
+P_NoopSame == [][(c'.em = c.em /\ c'.now = c.now) => r'.acc = r.acc]_vars
 \* history independence: the same call gets the same verdict whatever the Attestor did before
 \* label and scheme are independent dimensions; acceptance needs both to name PKCS#1 v1.5 with the same SHA digest
 Inv06_LabelScheme == (c.via = "parsed" /\ r.acc) => (c.sch = "pkcs1" /\ c.h0 = LabelHash(c.alg) /\ c.alg \in 3..12 /\ c.rel \in GoodRels)
+\* the verdict follows the clock at the time of the call, for a long-lived Attestor as for a fresh one
+Inv06_Clock == /\ ((c.time = "lapsing" /\ c.now = 1) \/ (c.time = "becoming" /\ c.now = 0)) => ~r.acc
+               /\ (c.time \in EpochTimes /\ c.mut = "none" /\ c.rel = "root" /\ c.alg \in RSALabels /\ LabelHash(c.alg) = c.h0
+                      /\ ((c.time = "lapsing") <=> (c.now = 0))) => r.acc
 P_Hist == [][(c' = c) => (r' = r)]_vars
 
 (***************************************************************************)
